@@ -4,7 +4,7 @@
     every generated pair A (0-3 macros incl. an underscore name, with/without
     an export list, optionally a reader macro) / B (one `require` of A in every
     documented shape — bare, :as, name lists, aliases, *, :macros, two clauses,
-    relative inside a package, inside a function body, :readers — plus a use
+    relative inside a package, a submodule named in the list of its package, inside a function body, :readers — plus a use
     of every macro name the shape brings in, an own macro, plain values) x
     every history of <= k steps over
         I   drop A and B from sys.modules, import B
@@ -18,7 +18,7 @@
 (2) The same pairs' shapes in two FRESH processes each (compile, then load
     from bytecode): same values and macro names, second run compiles nothing.
 (3) File-extension rule: a polyglot file (valid Hy and valid Python with
-    different results) under each of 8 names, loaded (i) through
+    different results) under each of 11 names (incl. .PY / .Py, which are not Python source suffixes here), loaded (i) through
     SourceFileLoader, (ii) through hy.importer.runhy.run_path (what `hy FILE`
     uses), (iii) by `hy FILE` in a subprocess: compiled as Hy exactly when the
     suffix is not another Python source suffix.
@@ -106,6 +106,14 @@ class Pair:
             self.a_path, self.b_path = os.path.join(pd, "a.hy"), os.path.join(pd, "b.hy")
             self.a_ref = self.a_name
             rel_name = ".a"
+        elif shape.startswith("pkg-"):
+            self.pkg = "rcP_" + uid
+            pd = os.path.join(self.dir, self.pkg)
+            os.makedirs(pd)
+            M.write(os.path.join(pd, "__init__.py"), "")
+            self.a_name, self.b_name = self.pkg + ".a", "rcB_" + uid
+            self.a_path, self.b_path = os.path.join(pd, "a.hy"), os.path.join(self.dir, self.b_name + ".hy")
+            rel_name = self.pkg
         else:
             self.pkg = None
             self.a_name, self.b_name = "rcA_" + uid, "rcB_" + uid
